@@ -39,6 +39,21 @@ func init() {
 
 func c04Cases(env vk.Env) []vk.Case {
 	cs := campaignCases("C04", env)
+	// every point-to-point message of the corrupted party once with an empty recipient header (the shape that makes
+	// round code index its tables with ""), complete, for every protocol: whoever is named must be the sender
+	for _, p := range append(append([]string{}, cheapProtos...), cmpProtos...) {
+		for pos := 0; pos < env.Pick(1, 3); pos++ {
+			p, pos := p, pos
+			cs = append(cs, vk.Case{ID: fmt.Sprintf("empty-recipient/%s/pos%d", p, pos), Run: func(t *vk.T) {
+				campaignOnly = "/empty-recipient-header/"
+				defer func() { campaignOnly, campaignSched = "", -1 }()
+				for _, sc := range []int{2, 0, 1} { // latest-first (the message is queued before its round), in order, random
+					campaignSched = sc
+					runCampaign(t, "C04", p, 3, pos+1, 0, 0, 1)
+				}
+			}})
+		}
+	}
 	devs := []string{"chi-via-x-during-round3", "gamma-during-round3", "delta-share-off-by-one", "chi-via-x-from-round3"}
 	for _, variant := range []string{"offline", "full"} {
 		for di, d := range devs {
